@@ -7,12 +7,15 @@ V = os.path.dirname(os.path.dirname(os.path.abspath(__file__)))
 sys.path.insert(0, V)
 from ssrules import facts as F
 from ssrules.mir import norm
+from ssrules import normalise
 names = set()
+hashes = {}
 for cfg in F.THOROUGH_CONFIGS:
     d = F.load(cfg)
     for fn in d["fns"]:
         if fn["kind"] != "closure":
             names.add(norm(fn["path"]))
+            hashes.setdefault(norm(fn["path"]), set()).add(normalise.body_hash(fn))
 out = os.path.join(V, "ssrules", "tables", "known_fns.json")
-json.dump({"_comment": "functions of the confirmed tree (tools/gen_known_fns.py); see ssrules/normalise.py", "tree": F.tree_hash(), "fns": sorted(names)}, open(out, "w"), indent=0)
+json.dump({"_comment": "functions of the confirmed tree (tools/gen_known_fns.py); see ssrules/normalise.py", "tree": F.tree_hash(), "fns": sorted(names), "hashes": {k: sorted(v) for k, v in sorted(hashes.items())}}, open(out, "w"), indent=0)
 print("known functions:", len(names), "tree", F.tree_hash())
